@@ -114,6 +114,9 @@ MODELS = {
     "cachesim": ("MC_Cache.tla", "MC_Cache_sim.cfg", "MC_Cache_sim.cfg", ["A", "B"], -1),
     "liveness": ("MC_Framing.tla", "MC_Liveness.cfg", "MC_Liveness.cfg", ["A"], 0),   # Terminates under weak fairness; no vectors
     "decode": ("MC_Decode.tla", "MC_Decode_quick.cfg", "MC_Decode_thorough.cfg", ["A"], 4000),
+    # the life cycle of one template id: EVERY sequence of MaxCalls packets over a small alphabet (history in the VIEW)
+    "life9": ("MC_Cache.tla", "MC_Life9_quick.cfg", "MC_Life9_thorough.cfg", ["A"], -1),
+    "lifex": ("MC_Cache.tla", "MC_LifeX_quick.cfg", "MC_LifeX_thorough.cfg", ["A"], -1),
 }
 
 
@@ -376,8 +379,8 @@ def emit(prop, tier, seed, t0, runs, extra_findings=(), level="model_checking", 
 
 
 PROP_MODELS = {
-    "C01": ["framing", "cache", "liveness"], "C02": ["framing"], "C03": ["framing"], "C04": ["decode", "cache"], "C05": ["decode", "cache"],
-    "C06": ["cache"], "C07": ["cache"], "C08": ["framing"], "C09": ["decode", "cache", "framing"], "C10": ["decode", "cache", "framing"],
+    "C01": ["framing", "cache", "liveness"], "C02": ["framing"], "C03": ["framing"], "C04": ["decode", "cache", "life9"], "C05": ["decode", "cache", "lifex"],
+    "C06": ["cache", "life9", "lifex"], "C07": ["cache", "life9", "lifex"], "C08": ["framing"], "C09": ["decode", "cache", "framing", "life9"], "C10": ["decode", "cache", "framing", "lifex"],
     "C11": ["framing", "cache"], "C12": ["framing", "cache"], "C13": ["decode"], "C14": ["framing", "cache"],
 }
 
